@@ -707,8 +707,10 @@ libChkHeader(Lib lib)
 			libError(lib, ALDOR_E_LibBadSectName);
 			return false;
 		}
-		if( libNameIndex(lib, n) != i )
-			bug( "Index[Name[i]] != i" );
+		if( libNameIndex(lib, n) != i ) {
+			libError(lib, ALDOR_E_LibSectDup);
+			return false;
+		}
 	}
 
 #if 0
@@ -780,7 +782,8 @@ libGetHeader(Lib lib)
 	LIB_SEEK(lib, long0);
 	cc = libHdrSize;
 	s = strAlloc(cc);
-	FILE_GET_CHARS(lib->file, s, cc);
+	if (fread(s, BYTE_BYTES, cc, lib->file) != cc)
+		comsgFatal(NULL, ALDOR_F_LibBadFormat, libToStringStatic(lib));
 	buf = bufCapture(s, cc);
 
 	lib->hdr.magic = bufGetHInt(buf);
@@ -804,7 +807,26 @@ libGetHeader(Lib lib)
 			libNameIndex(lib, n) = i;
 	}
 
-	libChkHeader(lib);
+	if (!libChkHeader(lib))
+		comsgFatal(NULL, ALDOR_F_LibBadFormat, libToStringStatic(lib));
+
+	/* The sections must lie within the file (it may have been truncated). */
+	if (lib->hdr.numSect > LIB_INDEX_START) {
+		long	fend;
+		i = lib->hdr.numSect - 1;
+		fseek(lib->file, long0, SEEK_END);
+		fend = ftell(lib->file);
+		if (fend >= 0) {
+			ULong	lend = (ULong) lib->offset +
+				libIndexSect(lib, i).offset +
+				libIndexSect(lib, i).length;
+			/* A file of its own ends with its last section. */
+			if (lend > (ULong) fend ||
+			    (lib->offset == 0 && lend != (ULong) fend))
+				comsgFatal(NULL, ALDOR_F_LibBadFormat,
+					   libToStringStatic(lib));
+		}
+	}
 	return lib;
 }
 
